@@ -4,6 +4,7 @@ package main
 // havoc modifies, assume ensures), inlining of small repo callees, defer / go / channels.
 
 import (
+	"strconv"
 	"fmt"
 	"go/ast"
 	"go/token"
@@ -1148,6 +1149,16 @@ func (u *Unit) applyOnCall(st *State, cs *callSite) {
 	short := cs.fn.Name()
 	for i, c := range spec.OnCall {
 		pat := c.Arg
+		if i := strings.LastIndex(pat, "#"); i > 0 {
+			// NAME#k: only the k-th call of NAME in the function body (source order)
+			k, err := strconv.Atoi(pat[i+1:])
+			if err == nil {
+				if u.callOrdinal(cs.call, short) != k {
+					continue
+				}
+				pat = pat[:i]
+			}
+		}
 		match := pat == name || pat == short || pat == "*."+short || (strings.HasSuffix(pat, ".*") && strings.HasPrefix(name, strings.TrimSuffix(pat, "*")))
 		if !match && isInterface(cs.sigRecvType()) {
 			match = pat == typeKey(cs.sigRecvType())+"."+short
@@ -1767,4 +1778,33 @@ func (u *Unit) closureAnchors(st *State, anchor string, call *ast.CallExpr, args
 		extra[fmt.Sprintf("$a%d", i)] = a
 	}
 	u.runAnchorsNamed(st, anchor, call.Pos(), extra)
+}
+
+// callOrdinal numbers the calls of a function with the given short name in the current body (1-based,
+// source order, not descending into function literals' own ordinals).
+func (u *Unit) callOrdinal(call *ast.CallExpr, short string) int {
+	fr := u.top()
+	if fr == nil || fr.body == nil {
+		return 0
+	}
+	n, found := 0, 0
+	ast.Inspect(fr.body, func(x ast.Node) bool {
+		if c, ok := x.(*ast.CallExpr); ok && found == 0 {
+			nm := ""
+			switch f := ast.Unparen(c.Fun).(type) {
+			case *ast.Ident:
+				nm = f.Name
+			case *ast.SelectorExpr:
+				nm = f.Sel.Name
+			}
+			if nm == short {
+				n++
+				if c == call {
+					found = n
+				}
+			}
+		}
+		return true
+	})
+	return found
 }
